@@ -92,19 +92,35 @@ def icase_obs(a, b):
     from str_utils import ICaseString
 
     A, B = ICaseString(a), ICaseString(b)
-    bits = [A == B, B == A, A != B, A < B, B < A, A <= B, B <= A, A > B, A >= B, b in A, a in B, hash(A) == hash(B)]
+    ops = [lambda: A == B, lambda: B == A, lambda: A != B, lambda: A < B, lambda: B < A, lambda: A <= B, lambda: B <= A,
+           lambda: A > B, lambda: A >= B, lambda: b in A, lambda: a in B, lambda: hash(A) == hash(B)]
+    bits = []
+    for k, op in enumerate(ops):
+        try:
+            bits.append(bool(op()))
+        except Exception as e:  # noqa: BLE001 - every operation of the type is total; an exception is an observation
+            raise IcaseRaised(f"operation #{k} of (==,==,!=,<,<,<=,<=,>,>=,in,in,hash) on {a!r}, {b!r} raised {type(e).__name__}") from e
     return ["".join("1" if x else "0" for x in bits), str(A), str(B)]
+
+
+class IcaseRaised(Exception):
+    pass
 
 
 def eval_icase(inp):
     items = inp["items"]
     impl = []
-    for it in items:
-        if len(it) == 2:
-            impl.append([icase_obs(it[0], it[1])])
-        else:
-            a, b, c = it
-            impl.append([icase_obs(a, b), icase_obs(b, c), icase_obs(a, c)])
+    try:
+        for it in items:
+            if len(it) == 2:
+                impl.append([icase_obs(it[0], it[1])])
+            else:
+                a, b, c = it
+                impl.append([icase_obs(a, b), icase_obs(b, c), icase_obs(a, c)])
+    except IcaseRaised as e:
+        props = _blank_props()
+        props["C18"] = {"app": True, "nontrivial": True, "k": False, "o": "C18.total: " + str(e)}
+        return {"props": props, "tags": ["raised"], "impl": str(e), "model": None, "small": {"kind": "icase", "items": [it]}}
     ans = core.driver().ask({"op": "icase", "items": items, "impl": impl, "brief": True})
     props = _blank_props()
     props["C18"] = {"app": True, "nontrivial": any(len(set(it)) > 1 for it in items), "k": bool(ans["k"]["C18"]), "o": ans["o"]["C18"]}
@@ -478,12 +494,19 @@ def gen_isa_case(rng):
     n = rng.choice([0, 1, 2]) if rng.random() < 0.2 else rng.randint(0, 8)
     isa = []
     pool = rng.sample(ISA_MN, min(len(ISA_MN), n + 2))
+    # mnemonics and capabilities live in different name spaces: let them overlap now and then (a mnemonic spelled like an
+    # offered capability, a capability spelled like a mnemonic of the table)
+    overlap = rng.random() < 0.25
     for _ in range(n):
         m = rng.choice(pool)
+        if overlap and caps and rng.random() < 0.4:
+            m = rng.choice(caps)
         if rng.random() < 0.15:
             m = m.swapcase()
         r = rng.random()
-        if caps and r < 0.86:
+        if overlap and isa and r < 0.2:
+            c = rng.choice(isa)[0] if rng.random() < 0.5 else m
+        elif caps and r < 0.86:
             c = rng.choice(caps)
             if rng.random() < 0.4:
                 c = "".join(ch.swapcase() if rng.random() < 0.5 else ch for ch in c)
